@@ -169,6 +169,38 @@ def rtg_cases(chk, rng, n):
             chk.fail("C07:reward_to_go:recurrence", "reward-to-go differs from its recurrence", {"case": case, "impl": [str(x) for x in out]})
 
 
+def dataset_cases(chk, rng, n):
+    """the returns EpisodeDataset.prepare_policy_gradient_dataset hands to REINFORCE / actor-critic: reward-to-go per episode, for
+    float and for integer-typed rewards, several episodes in one data set"""
+    import gymnasium as gym
+    from rl_blox.algorithm.reinforce import EpisodeDataset
+    space = gym.spaces.Discrete(2)
+    for k in range(n):
+        g = float([0.5, 0.9, 1.0, 0.0][k % 4])
+        integer_rewards = k % 2 == 0
+        ds, ref = EpisodeDataset(), []
+        for _ in range(int(rng.integers(1, 4))):
+            ds.start_episode()
+            T = int(rng.integers(1, 7))
+            rs = [int(x) if integer_rewards else float(x) / 4 for x in rng.integers(-6, 7, size=T)]
+            for t, r in enumerate(rs):
+                ds.add_sample(np.zeros(3, dtype=np.float32) + t, 1 if t % 2 else 0, np.zeros(3, dtype=np.float32) + t + 1, r)
+            acc, out = 0.0, []
+            for r in reversed(rs):
+                acc = float(r) + g * acc
+                out.append(acc)
+            ref += out[::-1]
+        case = {"gamma": g, "integer_rewards": integer_rewards, "reference_returns": ref}
+        ok, prep = chk.impl_call("C07:prepare_policy_gradient_dataset:raised", case, ds.prepare_policy_gradient_dataset, space, g)
+        chk.case(("dataset", k, g, integer_rewards, len(ref)))
+        chk.count("dataset_cases")
+        if ok:
+            ret = np.asarray(prep[3], dtype=float).reshape(-1)
+            if ret.shape[0] != len(ref) or not np.allclose(ret, ref, rtol=1e-5, atol=1e-5):
+                chk.fail("C07:prepare_policy_gradient_dataset:returns", "the returns prepared for the policy-gradient learners are not the per-episode reward-to-go",
+                         {"case": case, "impl": ret.tolist()})
+
+
 def a2c_cases(chk, rng, n):
     import gymnasium as gym
     import jax.numpy as jnp
@@ -342,6 +374,7 @@ def main(chk):
     gae_cases(chk, rng, 150 if q else 8000)
     nstep_cases(chk, rng, 100 if q else 5000)
     rtg_cases(chk, rng, 100 if q else 5000)
+    dataset_cases(chk, rng, 16 if q else 400)
     a2c_cases(chk, rng, 40 if q else 1500)
     ppo_cases(chk, rng, 6 if q else 60)
     # learning signals computed from sampled subtrajectories (MR.Q critic target, encoder loss): nothing after the first terminated step matters
